@@ -214,6 +214,9 @@ class Spec:
     assumptions = ["transaction interleavings are whatever the kernel scheduler produces for near-simultaneous starts "
                    "(16 workers add load noise); they are not enumerated"]
 
+    def accepts(self, case):
+        return "hold" not in case
+
     def cases(self, tier):
         return 320 if tier == "quick" else 6000
 
@@ -225,3 +228,17 @@ class Spec:
 
 
 SPEC = Spec()
+
+
+def spec_for(case):
+    from . import c16hold
+    return c16hold.SPEC if "hold" in case else SPEC
+
+
+def run_check(tier, seed):
+    from .. import engine
+    code, ev = engine.run_property("rv.props.c16", tier, seed)
+    code2, ev2 = engine.run_property("rv.props.c16hold", tier, seed)
+    ev = engine.merge_evidence(ev, ev2, "free-running concurrent commands",
+                               "commands started while a script's redo-stamp waits for its input")
+    return (1 if 1 in (code, code2) else max(code, code2)), ev
